@@ -105,7 +105,7 @@ def norm_block(stmts):
     for s in stmts:
         norm_stmt(s)
         out.extend(split_assign(s))
-    return norm_index_loops(norm_loops(out))
+    return norm_table_loops(norm_index_loops(norm_loops(out)))
 
 
 # ---- N5: counting loops written by hand → for … in reversed(range(len(X))) / enumerate(IT, c0)
@@ -261,6 +261,75 @@ def norm_index_loops(stmts):
         ast.copy_location(new, s)
         ast.fix_missing_locations(new)
         out[j] = new
+    return out
+
+
+# ---- N7: loops over a literal dispatch table [(K1, F1), (K2, F2), …] are unrolled
+class _NameSubst(ast.NodeTransformer):
+    def __init__(self, mapping):
+        self.mapping = mapping
+
+    def visit_Name(self, n):
+        if isinstance(n.ctx, ast.Load) and n.id in self.mapping:
+            return ast.copy_location(copy.deepcopy(self.mapping[n.id]), n)
+        return n
+
+
+def _has_loop_exit(stmts):
+    for s in stmts:
+        if isinstance(s, (ast.Break, ast.Continue)):
+            return True
+        if isinstance(s, (ast.For, ast.While, ast.FunctionDef, ast.AsyncFunctionDef, ast.ClassDef)):
+            continue
+        for fld in ("body", "orelse", "finalbody"):
+            b = getattr(s, fld, None)
+            if isinstance(b, list) and b and isinstance(b[0], ast.stmt) and _has_loop_exit(b):
+                return True
+        for h in getattr(s, "handlers", []) or []:
+            if _has_loop_exit(h.body):
+                return True
+    return False
+
+
+def norm_table_loops(stmts):
+    out = list(stmts)
+    j = 0
+    while j < len(out):
+        s = out[j]
+        j += 1
+        if not (isinstance(s, ast.For) and not s.orelse and isinstance(s.target, ast.Tuple) and all(isinstance(e, ast.Name) for e in s.target.elts)):
+            continue
+        table = s.iter
+        if isinstance(table, ast.Name):
+            defs = [x for x in out[:j - 1] if isinstance(x, (ast.Assign, ast.AnnAssign)) and isinstance((x.targets[0] if isinstance(x, ast.Assign) else x.target), ast.Name)
+                    and (x.targets[0] if isinstance(x, ast.Assign) else x.target).id == table.id]
+            stores = sum(1 for t in out for n in ast.walk(t) if isinstance(n, ast.Name) and n.id == table.id and isinstance(n.ctx, ast.Store))
+            if len(defs) != 1 or stores != 1 or defs[0].value is None:
+                continue
+            table = defs[0].value
+        if not (isinstance(table, (ast.List, ast.Tuple)) and 1 <= len(table.elts) <= 8):
+            continue
+        k = len(s.target.elts)
+        rows = table.elts
+        if not all(isinstance(r, ast.Tuple) and len(r.elts) == k and all(isinstance(c, (ast.Name, ast.Attribute, ast.Constant)) for c in r.elts) for r in rows):
+            continue
+        # a dispatch table names at least one callable/class per row (plain data tables are left alone)
+        if not all(any(isinstance(c, (ast.Name, ast.Attribute)) for c in r.elts) for r in rows):
+            continue
+        names = [e.id for e in s.target.elts]
+        if _has_loop_exit(s.body) or any(_assigns(s.body, n) for n in names) or any(_loads_after(out[j:], n) for n in names):
+            continue
+        unrolled = []
+        for r in rows:
+            mapping = dict(zip(names, r.elts))
+            for b in s.body:
+                nb = _NameSubst(mapping).visit(copy.deepcopy(b))
+                ast.copy_location(nb, s)
+                unrolled.append(nb)
+        for u in unrolled:
+            ast.fix_missing_locations(u)
+        out[j - 1:j] = unrolled
+        j = j - 1 + len(unrolled)
     return out
 
 
@@ -564,7 +633,7 @@ class Inliner:
             """pull eligible calls nested inside the expression(s) of a simple statement out
             into temporaries (left-to-right), returns (pre statements, statement)"""
             pre = []
-            if not isinstance(s, (ast.Assign, ast.AugAssign, ast.AnnAssign, ast.Return, ast.Expr, ast.If)):
+            if not isinstance(s, (ast.Assign, ast.AugAssign, ast.AnnAssign, ast.Return, ast.Expr, ast.If, ast.For)):
                 return pre, s
 
             inl = self
@@ -594,6 +663,9 @@ class Inliner:
             h = H()
             if isinstance(s, ast.If):
                 s.test = h.visit(s.test)
+            elif isinstance(s, ast.For):
+                # the iterable is evaluated once, before the loop
+                s.iter = h.visit(s.iter)
             elif top_call is not None:
                 # keep the top-level call in place, hoist only calls nested in its arguments
                 top_call.args = [h.visit(a) for a in top_call.args]
